@@ -56,8 +56,8 @@ var uninflectedWords = []string{"bison", "bream", "breeches", "carp", "chassis",
 var regularWords = []string{"status", "quiz", "mouse", "matrix", "index", "box", "church", "city", "hive", "wife", "leaf", "analysis",
 	"datum", "buffalo", "tomato", "virus", "alias", "axis", "bus", "cat", "a", "s", "", "ss", "ID", "user_id", "userName", "Query", "menus",
 	"movies", "shoes", "drives", "news", "bureaus", "octopi", "caches", "addresses", "statuses"}
-var boundaries = []string{" ", "-", ".", "/", ":", "+", "--", " - "}
-var prefixes = []string{"old", "big", "a.b", "x", "New York", "well known", "42", "Ünï", "a-b", "UPPER"}
+var boundaries = []string{" ", "-", ".", "/", ":", "+", "--", " - ", "\n", "\t", "\r\n", "!", "(", "'"}
+var prefixes = []string{"old", "big", "a.b", "x", "New York", "well known", "42", "Ünï", "a-b", "UPPER", "line1\nline2", "tab\tbed", ""}
 
 func caseVariant(r *Rng, w string) string {
 	switch r.Intn(5) {
@@ -100,7 +100,9 @@ func drawInflCall(r *Rng, token string) InflCall {
 		return InflCall{Op: op, Arg: w}
 	case 6:
 		// non-ASCII first rune, odd strings
-		w := inflproto.Wire(op, Pick(r, []string{"émove", "Ñandú", "日本", "ß", "\xff\xfe", "ox\xc3", " ", "-", "é", "ox\n", "\tman", "person "})+Pick(r, []string{"", token}))
+		w := inflproto.Wire(op, Pick(r, []string{"émove", "Ñandú", "日本", "ß", "\xff\xfe", "ox\xc3", " ", "-", "é", "ox\n", "\tman", "person ",
+			// runes that case-fold to ASCII letters: long s (U+017F) and the Kelvin sign (U+212A) match (?i)s and (?i)k
+			"perſon", "old-perſon", "ſex", "cooKie", "big cooKies", "ſeries", "Kiſs", "oxen\u0130"})+Pick(r, []string{"", token}))
 		return InflCall{Op: op, Arg: w.Arg, Hex: w.Hex}
 	case 7:
 		return InflCall{Op: op, Arg: token + caseVariant(r, Pick(r, regularWords))}
